@@ -19,7 +19,7 @@ namespace {
 static const int NS = 3;	// vnacal_new_t slots
 static const int ND = 2;	// vnadata_t objects
 
-struct Sess { vnacal_new_t *vnp = nullptr; int type = 0, R = 0, C = 0, F = 0; bool fv = false; bool solved = false; };
+struct Sess { vnacal_new_t *vnp = nullptr; int type = 0, R = 0, C = 0, F = 0; bool fv = false; bool solved = false; bool endless = false; };	// endless: an iteration limit above 10000 was accepted
 
 struct ChWorld {
     Ctx &c;
@@ -100,7 +100,7 @@ template <class T> struct Exact {
     for (int ch_try_ = 0, ch_pend_ = 0;; ++ch_try_) { \
 	LibCall lc(c, ch_try_ == 0 ? &op : nullptr); BODY; bool ch_alloc_ = sim_alloc_fault_fired(); lc.done(); err = lc.saved_errno; failed = (FAILED); \
 	c11_auto(c, FN, failed, err); if (c.violated) return; \
-	if (ch_try_ == 0 && failed && ch_alloc_ && c.strict_enomem) { fault_failed(c, FN, err, true); ch_pend_ = err; continue; } \
+	if (ch_try_ == 0 && failed && ch_alloc_ && c.strict_enomem) { fault_failed(c, FN, err, true); ch_pend_ = err; if (!c.no_retry) continue; } \
 	if (ch_try_ == 1 && !failed) fault_recovered(c, FN, ch_pend_, true); \
 	c.log(" %s -> %s errno=%s", FN, failed ? "FAIL" : "ok", failed ? errno_name(err) : "-"); \
 	break; \
@@ -183,7 +183,7 @@ static void run_op(ChWorld &w, const Op &op)
 	    if (which == 0) { CH_CALL("vnacal_new_set_z0", rc != 0, rc = vnacal_new_set_z0(s.vnp, mkc(dval(op.I(2), 50), dval(op.I(3), 0)))); }
 	    else if (which == 1) { CH_CALL("vnacal_new_set_p_tolerance", rc != 0, rc = vnacal_new_set_p_tolerance(s.vnp, v)); MUST_FAIL(v < 0, "vnacal_new_set_p_tolerance", strf("tolerance %g", v)); }
 	    else if (which == 2) { CH_CALL("vnacal_new_set_et_tolerance", rc != 0, rc = vnacal_new_set_et_tolerance(s.vnp, v)); MUST_FAIL(v < 0, "vnacal_new_set_et_tolerance", strf("tolerance %g", v)); }
-	    else if (which == 3) { bool ok; long it = pick(op.I(2), 50, ok, 1); CH_CALL("vnacal_new_set_iteration_limit", rc != 0, rc = vnacal_new_set_iteration_limit(s.vnp, (int)it)); MUST_FAIL(it < 1, "vnacal_new_set_iteration_limit", strf("limit %ld", it)); }
+	    else if (which == 3) { bool ok; long it = pick(op.I(2), 50, ok, 1); CH_CALL("vnacal_new_set_iteration_limit", rc != 0, rc = vnacal_new_set_iteration_limit(s.vnp, (int)it)); MUST_FAIL(it < 1, "vnacal_new_set_iteration_limit", strf("limit %ld", it)); if (rc == 0) s.endless = it > 10000; }
 	    else { CH_CALL("vnacal_new_set_pvalue_limit", rc != 0, rc = vnacal_new_set_pvalue_limit(s.vnp, v)); MUST_FAIL(v <= 0 || v > 1, "vnacal_new_set_pvalue_limit", strf("significance %g", v)); }
 	    return;
 	}
@@ -234,6 +234,8 @@ static void run_op(ChWorld &w, const Op &op)
 	}
 	if (k == "solve") {
 	    int rc;
+	    // (with random data an iterative solve may use every iteration it was allowed: two thousand million of them is the caller's wish, not a hang)
+	    if (s.endless) { c.count("probe.solve_skipped_after_huge_iteration_limit"); return; }
 	    sim_arm_timer(60);
 	    CH_CALL("vnacal_new_solve", rc != 0, rc = vnacal_new_solve(s.vnp));
 	    MUST_FAIL(!s.fv, "vnacal_new_solve", std::string("a calibration without frequency vector"));
@@ -477,6 +479,7 @@ Plan chaos_gen(const std::string &check, const std::string &tier, uint64_t seed,
     double p_fault = rng.chance(0.4) ? 0 : rng.pick(std::vector<double>{0.03, 0.1, 0.3});
     bool c12 = check.compare(0, 3, "C12") == 0;	// the enumeration adds the faults itself; vnacal_t replacement is left out
     if (c12) { p_fault = 0; plan.cfg["strict_enomem"] = 1; if (p_bad > 0.3) p_bad = 0.3; }
+    if (check.find("noretry") != std::string::npos) plan.cfg["no_retry"] = 1;	// the failed call is not re-issued: the objects are used on as they are
     plan.cfg["p_bad"] = p_bad; plan.cfg["p_fault"] = p_fault;
     auto code = [&](void) -> long { long raw = rng.below(1000); long cls = rng.chance(p_bad) ? rng.range(6, 9) : rng.range(0, 5); return raw * 10 + cls; };
     auto good = [&](void) -> long { return rng.below(1000) * 10 + rng.range(0, 4); };
